@@ -13,8 +13,8 @@ theorem qinv_frame {nat : List (Nat × Nat)} {h : Hist} {s s' : Sys} (q : QInv n
   refine ⟨hn.trans q.topo, ha ▸ q.invA, hb ▸ q.invB, ?_, fun d hd => q.fl d (hf d hd), ?_, ?_, ?_, ?_, ?_, ?_⟩
   · unfold Session; rw [ha, hb]; exact q.sess
   · rw [ha]; exact q.pendA
-  · rw [ha]; exact q.selA
   · rw [ha]; exact q.ansA
+  · rw [ha]; exact q.selA
   · rw [hb]; exact q.lastB
   · rw [hb]; exact q.accB
   · rw [hb]; exact q.defB
@@ -25,7 +25,7 @@ theorem hstepA_issued (h : Hist) (a : Agent) (ev : Ev) :
     (hstep h false a ev).issued = h.issued ++ (issueOf a ev).toList := by
   simp only [hstep, Bool.false_eq_true, if_false]
 theorem hstepA_answered (h : Hist) (a : Agent) (ev : Ev) :
-    (hstep h false a ev).answered = (answeredNom a ev).orElse fun _ => h.answered := by
+    (hstep h false a ev).answered = h.answered ++ (answeredNom a ev).toList := by
   simp only [hstep, Bool.false_eq_true, if_false]
 theorem hstepA_accepted (h : Hist) (a : Agent) (ev : Ev) : (hstep h false a ev).accepted = h.accepted := by
   simp only [hstep, Bool.false_eq_true, if_false]
@@ -67,7 +67,7 @@ def PostA (a' : Agent) : Prop :=
   a'.started = true ∧ a'.closed = false ∧ a'.controlling = true ∧ a'.connState ≠ .failed
 
 theorem qinv_stepA {nat : List (Nat × Nat)} {h : Hist} {s : Sys} (q : QInv nat h s) (ev : Ev) (hk : keeps ev = true)
-    (hpost : PostA (step s.a ev).1) (hz : ∀ x ∈ (hstep h false s.a ev).issued, 0 < x.1) :
+    (hpost : PostA (step s.a ev).1) :
     QInv nat (hstep h false s.a ev) (s.agentEv false ev).1 := by
   obtain ⟨hs1, hs2, hs3, hs4, hs5, hs6, hs7, hs8, hs9⟩ := q.sess
   obtain ⟨hp1, hp2, hp3, hp4⟩ := hpost
@@ -76,8 +76,16 @@ theorem qinv_stepA {nat : List (Nat × Nat)} {h : Hist} {s : Sys} (q : QInv nat 
   have hiss : ∀ x, issueOf s.a ev = some x → x ∈ (hstep h false s.a ev).issued := by
     intro x hx; rw [hstepA_issued, hx]; simp
   obtain ⟨hq, hsel, hans⟩ := step_frame_ctl s.a ev q.invA hs1 hk hs5 hp3 hp4
-  have hselS : ∃ sid, s.a.selected = some sid := Option.isSome_iff_exists.mp q.selA
-  obtain ⟨sid, hsid⟩ := hselS
+  have hansw := step_answered s.a ev hs1 hk hs5 hp3
+  -- when the selection and the answered value stay, so does what the invariant says about them
+  have keepA : (step s.a ev).1.selected = s.a.selected →
+      (step s.a ev).1.answeredNomination = s.a.answeredNomination →
+      ∀ w, (step s.a ev).1.answeredNomination = some w →
+        ∃ x ∈ h.answered, x.1 = w ∧ selAddrs (step s.a ev).1 = some (x.2.1, x.2.2) := by
+    intro e1 e2 w hw
+    rw [e2] at hw
+    obtain ⟨x, hx, hxw, hxs⟩ := q.selA w hw
+    exact ⟨x, hx, hxw, selAddrs_keep hq e1 _ hxs⟩
   refine ⟨(agentEv_nat s false ev).trans q.topo, ?_, q.invB, ?_, ?_, ?_, ?_, ?_, q.lastB, ?_, q.defB⟩
   · rw [agentEv_a_false]; exact q.invA.step ev
   · unfold Session
@@ -88,16 +96,9 @@ theorem qinv_stepA {nat : List (Nat × Nat)} {h : Hist} {s : Sys} (q : QInv nat 
     rw [agentEv_inflight_false] at hd
     rcases List.mem_append.mp hd with hd | hd
     · exact (q.fl d hd).mono hsub
-    · intro m hm
-      have hmem := mem_dgramsOf_stun hd hm
-      refine ⟨fun v hv => ?_, fun hc hu => ?_⟩
-      · obtain ⟨h1, _, _, h4⟩ := step_out_nom s.a ev d.src d.dst m v hmem hv
-        exact ⟨h1, hiss _ h4⟩
-      · cases hn : m.nom with
-        | some v => rfl
-        | none =>
-          have := step_out_plainUC s.a ev hs1 hk q.selA d.src d.dst m hmem hc hu hn
-          exact absurd (hz _ (hiss _ this)) (by simp)
+    · intro m hm v hv
+      obtain ⟨h1, _, _, h4⟩ := step_out_nom s.a ev d.src d.dst m v (mem_dgramsOf_stun hd hm) hv
+      exact ⟨h1, hiss _ h4⟩
   · -- outstanding transactions of A
     intro pd hpd v hv
     rw [agentEv_a_false] at hpd
@@ -107,74 +108,108 @@ theorem qinv_stepA {nat : List (Nat × Nat)} {h : Hist} {s : Sys} (q : QInv nat 
     · rw [h1] at hv
       cases hv
       exact hiss _ h2
-  · -- A still has a selection
-    rw [agentEv_a_false, hsel]
-    cases hao : answerOf s.a ev with
-    | none => simpa using q.selA
-    | some x =>
-      obtain ⟨pd, id⟩ := x
-      simp only []
-      split
-      · rfl
-      · exact q.selA
-  · -- the selected pair is the pair of the nomination answered last
+  · -- answered nominations
     intro x hx
     rw [hstepA_answered] at hx
     rw [agentEv_a_false]
+    rcases List.mem_append.mp hx with hx | hx
+    · obtain ⟨h1, w, hw, hle⟩ := q.ansA x hx
+      refine ⟨hsub _ h1, ?_⟩
+      rw [hansw]
+      cases hao : answerOf s.a ev with
+      | none => exact ⟨w, hw, hle⟩
+      | some y =>
+        obtain ⟨pd, id⟩ := y
+        simp only []
+        split
+        · cases hn : pd.nom with
+          | none => exact ⟨w, hw, hle⟩
+          | some v =>
+            simp only []
+            split
+            · exact ⟨w, hw, hle⟩
+            · rename_i hns
+              refine ⟨v, rfl, ?_⟩
+              unfold supersededBy at hns
+              rw [hw] at hns
+              simp only [decide_eq_true_eq] at hns
+              omega
+        · exact ⟨w, hw, hle⟩
+    · -- the nomination answered by this very event
+      unfold answeredNom at hx
+      cases hao : answerOf s.a ev with
+      | none => rw [hao] at hx; cases hx
+      | some y =>
+        obtain ⟨pd, id⟩ := y
+        rw [hao] at hx
+        simp only [] at hx
+        by_cases hu : pd.useCand = true
+        · rw [if_pos hu] at hx
+          cases hn : pd.nom with
+          | none => rw [hn] at hx; cases hx
+          | some v =>
+            rw [hn] at hx
+            simp only [Option.map_some, Option.toList_some, List.mem_singleton] at hx
+            rw [hx]
+            refine ⟨hsub _ (q.pendA pd (hans pd id hao).1 v hn), ?_⟩
+            rw [hansw, hao]
+            simp only [hu, if_true, hn]
+            split
+            · rename_i hsup
+              unfold supersededBy at hsup
+              cases haw : s.a.answeredNomination with
+              | none => rw [haw] at hsup; cases hsup
+              | some w =>
+                rw [haw] at hsup
+                simp only [decide_eq_true_eq] at hsup
+                exact ⟨w, rfl, hsup⟩
+            · exact ⟨v, rfl, Nat.le_refl _⟩
+        · rw [if_neg hu] at hx; cases hx
+  · -- the selected pair is the pair of the answered nomination with the greatest value
+    intro w hw
+    rw [agentEv_a_false] at hw ⊢
+    rw [hstepA_answered]
+    have lift : (∃ x ∈ h.answered, x.1 = w ∧ selAddrs (step s.a ev).1 = some (x.2.1, x.2.2)) →
+        ∃ x ∈ h.answered ++ (answeredNom s.a ev).toList, x.1 = w ∧ selAddrs (step s.a ev).1 = some (x.2.1, x.2.2) :=
+      fun ⟨x, hx, h1, h2⟩ => ⟨x, List.mem_append_left _ hx, h1, h2⟩
     cases hao : answerOf s.a ev with
     | none =>
-      have hnone : answeredNom s.a ev = none := by unfold answeredNom; rw [hao]
-      rw [hnone] at hx
-      simp only [Option.orElse_none] at hx
-      obtain ⟨h1, h2⟩ := q.ansA x hx
-      refine ⟨hsub _ h1, ?_⟩
-      have hsel' : (step s.a ev).1.selected = some sid := by rw [hsel, hao]; exact hsid
-      rw [selAddrs_of_selected hsel']
-      rw [selAddrs_of_selected hsid] at h2
-      exact hq.addrs _ _ h2
+      rw [hao] at hsel hansw
+      exact lift (keepA hsel hansw w hw)
     | some y =>
       obtain ⟨pd, id⟩ := y
-      obtain ⟨hpdm, hpa⟩ := hans pd id hao
-      by_cases hval : pd.useCand = true ∧ pd.nom.isSome = true
-      · obtain ⟨hu, hn⟩ := hval
-        obtain ⟨v, hv⟩ := Option.isSome_iff_exists.mp hn
-        have hnom : answeredNom s.a ev = some (v, pd.src, pd.dest) := by
-          unfold answeredNom; rw [hao]; simp [hu, hv]
-        rw [hnom] at hx
-        simp only [Option.orElse_some, Option.some.injEq] at hx
-        subst hx
-        refine ⟨hsub _ (q.pendA pd hpdm v hv), ?_⟩
-        have hsel' : (step s.a ev).1.selected = some id := by
-          rw [hsel, hao]; simp [hu, hn]
-        rw [selAddrs_of_selected hsel']
-        exact hq.addrs _ _ hpa
-      · have hnone : answeredNom s.a ev = none := by
-          unfold answeredNom; rw [hao]
-          simp only []
-          by_cases hu : pd.useCand = true
-          · have : pd.nom = none := by
-              cases hn : pd.nom with
-              | none => rfl
-              | some v => exact absurd ⟨hu, by simp [hn]⟩ hval
-            simp [hu, this]
-          · simp [hu]
-        rw [hnone] at hx
-        simp only [Option.orElse_none] at hx
-        obtain ⟨h1, h2⟩ := q.ansA x hx
-        refine ⟨hsub _ h1, ?_⟩
-        have hsel' : (step s.a ev).1.selected = some sid := by
-          rw [hsel, hao]
-          simp only []
-          by_cases hu : pd.useCand = true
-          · have hn : pd.nom.isSome = false := by
-              cases hn : pd.nom.isSome with
-              | false => rfl
-              | true => exact absurd ⟨hu, hn⟩ hval
-            simp [hu, hn, hsid]
-          · simp [hu, hsid]
-        rw [selAddrs_of_selected hsel']
-        rw [selAddrs_of_selected hsid] at h2
-        exact hq.addrs _ _ h2
+      rw [hao] at hsel hansw
+      simp only [] at hsel hansw
+      by_cases hu : pd.useCand = true
+      · rw [if_pos hu] at hsel hansw
+        cases hn : pd.nom with
+        | none =>
+          rw [hn] at hsel hansw
+          simp only [] at hsel hansw
+          -- an ordinary nomination selects only when nothing is selected; then no value has been answered
+          have hw0 : s.a.answeredNomination = some w := hansw ▸ hw
+          obtain ⟨x, hx, hxw, hxs⟩ := q.selA w hw0
+          rw [selAddrs_some_selected hxs] at hsel
+          simp only [Bool.false_eq_true, if_false] at hsel
+          exact lift (keepA hsel hansw w hw)
+        | some v =>
+          rw [hn] at hsel hansw
+          simp only [] at hsel hansw
+          by_cases hsup : supersededBy s.a.answeredNomination v = true
+          · rw [if_pos hsup] at hsel hansw
+            exact lift (keepA hsel hansw w hw)
+          · rw [if_neg hsup] at hsel hansw
+            rw [hansw] at hw
+            have hvw : v = w := Option.some.inj hw
+            subst hvw
+            refine ⟨(v, pd.src, pd.dest), List.mem_append_right _ ?_, rfl, ?_⟩
+            · unfold answeredNom
+              rw [hao]
+              simp [hu, hn]
+            · rw [selAddrs_of_selected hsel]
+              exact hq.addrs _ _ (hans pd id hao).2
+      · rw [if_neg hu] at hsel hansw
+        exact lift (keepA hsel hansw w hw)
   · -- B's part only reads the log, which grew
     intro v lb rb hacc
     rw [hstepA_accepted] at hacc
@@ -201,22 +236,18 @@ theorem nk_parts {p q : Pair} (h : nk p = nk q) :
   simp only [Prod.mk.injEq] at h
   exact h
 
-/-- the mark clause of the invariant for one pair -/
-def MarkOK (last : Option Nat) (p : Pair) : Prop :=
-  (p.nomOnSuccess = true → p.deferredNom.isSome = true) ∧
-  (∀ v', p.deferredNom = some v' → ∃ l, last = some l ∧ v' ≤ l)
-
 theorem MarkOK.of_marks {last last' : Option Nat} {p p' : Pair} (h : MarkOK last p)
-    (h1 : p'.nomOnSuccess = p.nomOnSuccess) (h2 : p'.deferredNom = p.deferredNom)
+    (h2 : p'.deferredNom = p.deferredNom ∨ p'.deferredNom = none)
     (hl : ∀ l, last = some l → ∃ l', last' = some l' ∧ l ≤ l') : MarkOK last' p' := by
-  refine ⟨fun hn => by rw [h2]; exact h.1 (h1 ▸ hn), fun v' hv' => ?_⟩
-  obtain ⟨l, hl1, hl2⟩ := h.2 v' (h2 ▸ hv')
-  obtain ⟨l', hl1', hl2'⟩ := hl l hl1
-  exact ⟨l', hl1', by omega⟩
+  intro v' hv'
+  rcases h2 with h2 | h2
+  · obtain ⟨l, hl1, hl2⟩ := h v' (h2 ▸ hv')
+    obtain ⟨l', hl1', hl2'⟩ := hl l hl1
+    exact ⟨l', hl1', by omega⟩
+  · rw [h2] at hv'; cases hv'
 
-theorem MarkOK.fresh {last : Option Nat} {p : Pair} (h1 : p.nomOnSuccess = false) (h2 : p.deferredNom = none) :
-    MarkOK last p :=
-  ⟨fun hn => (by rw [h1] at hn; cases hn), fun v' hv' => (by rw [h2] at hv'; cases hv')⟩
+theorem MarkOK.fresh {last : Option Nat} {p : Pair} (h2 : p.deferredNom = none) : MarkOK last p :=
+  fun v' hv' => (by rw [h2] at hv'; cases hv')
 
 /-- pairs other than the excepted one keep satisfying the mark clause when the highest value does not shrink -/
 theorem NomQ.marks {ex : Option Nat} {iss : Option (Nat × Nat × Nat)} {b b' : Agent} (hq : NomQ ex iss b b')
@@ -224,19 +255,17 @@ theorem NomQ.marks {ex : Option Nat} {iss : Option (Nat × Nat × Nat)} {b b' : 
     (hl : ∀ l, last = some l → ∃ l', last' = some l' ∧ l ≤ l')
     {p' : Pair} (hp' : p' ∈ b'.checklist) (hne : some p'.id ≠ ex) : MarkOK last' p' := by
   rcases hq.pairs p' hp' hne with ⟨p1, hp1, _, hnk⟩ | ⟨_, hnk⟩
-  · obtain ⟨_, h2, h3⟩ := nk_parts hnk
-    exact (hm p1 hp1).of_marks h2 h3 hl
+  · exact (hm p1 hp1).of_marks (Or.inl (nk_parts hnk).2.2) hl
   · unfold nk at hnk
     simp only [Prod.mk.injEq] at hnk
-    exact MarkOK.fresh hnk.2.1 hnk.2.2
+    exact MarkOK.fresh hnk.2.2
 
 /-- … and a pair other than the excepted one that carries value `v` stems from an old pair carrying it -/
 theorem NomQ.carrier {ex : Option Nat} {iss : Option (Nat × Nat × Nat)} {b b' : Agent} (hq : NomQ ex iss b b')
     {p' : Pair} (hp' : p' ∈ b'.checklist) (hne : some p'.id ≠ ex) {v : Nat} (hv : p'.deferredNom = some v) :
     ∃ p ∈ b.checklist, p.id = p'.id ∧ p.deferredNom = some v := by
   rcases hq.pairs p' hp' hne with ⟨p1, hp1, hid, hnk⟩ | ⟨_, hnk⟩
-  · obtain ⟨_, _, h3⟩ := nk_parts hnk
-    exact ⟨p1, hp1, hid, h3 ▸ hv⟩
+  · exact ⟨p1, hp1, hid, (nk_parts hnk).2.2 ▸ hv⟩
   · unfold nk at hnk
     simp only [Prod.mk.injEq] at hnk
     rw [hnk.2.2] at hv; cases hv
@@ -358,7 +387,7 @@ theorem QInv.binv {nat : List (Nat × Nat)} {h : Hist} {s : Sys} (q : QInv nat h
 
 /-- B accepts a nomination value -/
 theorem binv_accept {nat : List (Nat × Nat)} {issued : List Nomination} {acc : Option Nomination} {b : Agent}
-    (hb : BInv nat issued acc b) (hi : AgentC06.Inv b) (ev : Ev) {v la src : Nat}
+    (hb : BInv nat issued acc b) (ev : Ev) {v la src : Nat}
     (hlast : (step b ev).1.lastNomination = some v) (hgt : ∀ l, b.lastNomination = some l → l < v)
     (hiss : ∃ la' ra', (v, la', ra') ∈ issued ∧ la = unmappedL nat ra' ∧ src = mappedL nat la')
     (hB : ∃ id, reqPair b ev = some id ∧ NomQ (some id) none b (step b ev).1 ∧
@@ -385,19 +414,19 @@ theorem binv_accept {nat : List (Nat × Nat)} {issued : List Nomination} {acc : 
       apply Classical.byContradiction
       intro hne
       obtain ⟨p, hp, _, hpv⟩ := hq.carrier hp' (by simpa using hne) hv
-      obtain ⟨l, hl1, hl2⟩ := (hb.defB p hp).2 v hpv
+      obtain ⟨l, hl1, hl2⟩ := hb.defB p hp v hpv
       have := hgt l hl1
       omega
   · intro p' hp'
     by_cases hid : p'.id = id
     · rcases hdisj with ⟨_, hmarks⟩ | ⟨_, hnk⟩
-      · rcases hmarks p' hp' hid with ⟨p, hp, _, h1, h2⟩ | ⟨_, h1, h2⟩
-        · exact (hb.defB p hp).of_marks h1 h2 hmono
-        · exact MarkOK.fresh h1 h2
+      · rcases hmarks p' hp' hid with ⟨p, hp, _, _, h2⟩ | ⟨_, _, h2⟩
+        · exact (hb.defB p hp).of_marks (Or.inl h2) hmono
+        · exact MarkOK.fresh h2
       · have := hnk p' hp' hid
         unfold nk at this
         simp only [Prod.mk.injEq] at this
-        refine ⟨fun _ => by rw [this.2.2]; rfl, fun v' hv' => ?_⟩
+        intro v' hv'
         rw [this.2.2] at hv'
         simp only [Option.some.injEq] at hv'
         exact ⟨v, hlast, by omega⟩
@@ -409,82 +438,169 @@ theorem binv_answer {nat : List (Nat × Nat)} {issued : List Nomination} {acc : 
     (hlast : (step b ev).1.lastNomination = b.lastNomination)
     (hA : ∃ p ∈ b.checklist, p.id = id ∧ NomQ (some id) none b (step b ev).1 ∧
         (∀ p' ∈ (step b ev).1.checklist, p'.id = id →
-          p'.state = .succeeded ∧ p'.nomOnSuccess = p.nomOnSuccess ∧ p'.deferredNom = p.deferredNom) ∧
+          p'.state = .succeeded ∧
+          (p.nomOnSuccess = true → p'.nomOnSuccess = false ∧ p'.deferredNom = none) ∧
+          (p.nomOnSuccess = false → p'.nomOnSuccess = false ∧ p'.deferredNom = p.deferredNom)) ∧
         (p.nomOnSuccess = false → (step b ev).1.selected = b.selected) ∧
         (∀ v, p.nomOnSuccess = true → p.deferredNom = some v →
           (step b ev).1.selected =
             match b.lastNomination with
             | some last => if v < last then b.selected else some id
-            | none => b.selected)) :
+            | none => b.selected) ∧
+        (p.nomOnSuccess = true → p.deferredNom = none →
+          (step b ev).1.selected = b.selected ∨
+            ((step b ev).1.selected = some id ∧ (b.selected = none ∨ b.lastNomination = none)))) :
     BInv nat issued acc (step b ev).1 := by
-  obtain ⟨p, hp, hpid, hq, hex, hsel0, hselv⟩ := hA
+  obtain ⟨p, hp, hpid, hq, hex, hsel0, hselv, hselp⟩ := hA
   have hmono : ∀ l, b.lastNomination = some l → ∃ l', (step b ev).1.lastNomination = some l' ∧ l ≤ l' :=
     fun l hl => ⟨l, hlast ▸ hl, Nat.le_refl _⟩
+  -- the deferred value of the answered pair afterwards: gone, or what it was
+  have hdn : ∀ p' ∈ (step b ev).1.checklist, p'.id = id → p'.deferredNom = p.deferredNom ∨ p'.deferredNom = none := by
+    intro p' hp' hid
+    cases hn : p.nomOnSuccess with
+    | true => exact Or.inr ((hex p' hp' hid).2.1 hn).2
+    | false => exact Or.inl ((hex p' hp' hid).2.2 hn).2
   refine ⟨by rw [hlast]; exact hb.lastB, ?_, ?_⟩
   · intro v lb rb hacc
     obtain ⟨hiss, id0, haddr0, hJ, huniq⟩ := hb.accB v lb rb hacc
     have hlv : b.lastNomination = some v := by rw [hb.lastB, hacc]; rfl
-    -- the new selection when the answered pair carries a deferred mark
-    have hnew : p.nomOnSuccess = true → ∃ v', p.deferredNom = some v' ∧ v' ≤ v ∧
-        (step b ev).1.selected = if v' < v then b.selected else some id := by
-      intro hn
-      obtain ⟨v', hv'⟩ := Option.isSome_iff_exists.mp ((hb.defB p hp).1 hn)
-      obtain ⟨l, hl1, hl2⟩ := (hb.defB p hp).2 v' hv'
-      rw [hlv] at hl1
-      cases hl1
-      refine ⟨v', hv', hl2, ?_⟩
-      have := hselv v' hn hv'
-      rw [hlv] at this
-      exact this
+    -- the new selection, case by case on the mark of the answered pair
+    have hnew : (step b ev).1.selected = b.selected ∨
+        ((step b ev).1.selected = some id ∧ p.nomOnSuccess = true ∧ p.deferredNom = some v) ∨
+        ((step b ev).1.selected = some id ∧ b.selected = none) := by
+      cases hn : p.nomOnSuccess with
+      | false => exact Or.inl (hsel0 hn)
+      | true =>
+        cases hd : p.deferredNom with
+        | none =>
+          rcases hselp hn hd with h | ⟨h1, h2 | h2⟩
+          · exact Or.inl h
+          · exact Or.inr (Or.inr ⟨h1, h2⟩)
+          · rw [hlv] at h2; cases h2
+        | some v' =>
+          obtain ⟨l, hl1, hl2⟩ := hb.defB p hp v' hd
+          rw [hlv] at hl1
+          cases hl1
+          have hs := hselv v' hn hd
+          rw [hlv] at hs
+          simp only [] at hs
+          by_cases hlt : v' < v
+          · rw [if_pos hlt] at hs; exact Or.inl hs
+          · rw [if_neg hlt] at hs
+            have : v' = v := by omega
+            subst this
+            exact Or.inr (Or.inl ⟨hs, rfl, rfl⟩)
     refine ⟨hiss, id0, hq.addrs _ _ haddr0, ?_, ?_⟩
-    · by_cases hid : id = id0
-      · -- the answered pair is the carrier
-        subst hid
+    · rcases hJ with hsel | ⟨q0, hq0, hq0id, hq0nk⟩
+      · -- the carrier is selected: it stays selected
         left
-        rcases hJ with hsel | ⟨q0, hq0, hq0id, hq0nk⟩
-        · cases hn : p.nomOnSuccess with
-          | false => rw [hsel0 hn]; exact hsel
-          | true =>
-            obtain ⟨v', _, _, hs⟩ := hnew hn
-            rw [hs]
-            split
-            · exact hsel
-            · rfl
-        · have hpq : q0 = p := ids_unique hi hq0 hp (hq0id.trans hpid.symm)
+        rcases hnew with h | ⟨h1, _, hd⟩ | ⟨_, h2⟩
+        · exact h.trans hsel
+        · rw [h1, ← hpid, huniq p hp hd]
+        · rw [hsel] at h2; cases h2
+      · by_cases hid : id = id0
+        · -- the answered pair is the waiting carrier: it is selected now
+          left
+          subst hid
+          have hpq : q0 = p := ids_unique hi hq0 hp (hq0id.trans hpid.symm)
           subst hpq
           unfold nk at hq0nk
           simp only [Prod.mk.injEq] at hq0nk
           have hs := hselv v hq0nk.2.1 hq0nk.2.2
           rw [hlv] at hs
           simpa using hs
-      · rcases hJ with hsel | ⟨q0, hq0, hq0id, hq0nk⟩
-        · left
-          cases hn : p.nomOnSuccess with
-          | false => rw [hsel0 hn]; exact hsel
-          | true =>
-            obtain ⟨v', hv', hle, hs⟩ := hnew hn
-            rw [hs]
-            split
-            · exact hsel
-            · have : v' = v := by omega
-              subst this
-              exact absurd ((huniq p hp hv').symm.trans hpid) (fun h => hid h.symm)
         · right
           obtain ⟨q0', hq0', hid', hnk'⟩ := hq.keep hi hq0 (by rw [hq0id]; simpa using fun h => hid h.symm)
           exact ⟨q0', hq0', hid'.trans hq0id, hnk'.trans hq0nk⟩
     · intro p' hp' hv
       by_cases hid : p'.id = id
-      · have := (hex p' hp' hid).2.2
-        rw [this] at hv
-        rw [hid, ← hpid]
-        exact huniq p hp hv
+      · rcases hdn p' hp' hid with h | h
+        · rw [h] at hv
+          rw [hid, ← hpid]
+          exact huniq p hp hv
+        · rw [h] at hv; cases hv
       · obtain ⟨p1, hp1, hp1id, hp1v⟩ := hq.carrier hp' (by simpa using hid) hv
         rw [← hp1id]
         exact huniq p1 hp1 hp1v
   · intro p' hp'
     by_cases hid : p'.id = id
-    · obtain ⟨_, h1, h2⟩ := hex p' hp' hid
-      exact (hb.defB p hp).of_marks h1 h2 hmono
+    · exact (hb.defB p hp).of_marks (hdn p' hp' hid) hmono
+    · exact hq.marks hb.defB hmono hp' (by simpa using hid)
+
+/-- an ordinary nomination reaches B's selector: the selection moves only if nothing is selected or no value has been
+accepted, and no deferred value is replaced -/
+theorem binv_plain {nat : List (Nat × Nat)} {issued : List Nomination} {acc : Option Nomination} {b : Agent}
+    (hb : BInv nat issued acc b) (hi : AgentC06.Inv b) (ev : Ev) {id : Nat}
+    (hlast : (step b ev).1.lastNomination = b.lastNomination)
+    (hq : NomQ (some id) none b (step b ev).1)
+    (hsel : (step b ev).1.selected = b.selected ∨
+      ((step b ev).1.selected = some id ∧ (b.selected = none ∨ b.lastNomination = none)))
+    (hmk : ∀ p' ∈ (step b ev).1.checklist, p'.id = id →
+      (∃ p ∈ b.checklist, p.id = id ∧ (nk p' = nk p ∨ nk p' = ((nk p).1, true, (nk p).2.2))) ∨
+      (b.nextPairID < id ∧ (nk p' = (false, false, none) ∨ nk p' = (false, true, none)))) :
+    BInv nat issued acc (step b ev).1 := by
+  have hmono : ∀ l, b.lastNomination = some l → ∃ l', (step b ev).1.lastNomination = some l' ∧ l ≤ l' :=
+    fun l hl => ⟨l, hlast ▸ hl, Nat.le_refl _⟩
+  -- the deferred value of the pair of the request is what it was
+  have hdn : ∀ p' ∈ (step b ev).1.checklist, p'.id = id →
+      (∃ p ∈ b.checklist, p.id = id ∧ p'.deferredNom = p.deferredNom) ∨ p'.deferredNom = none := by
+    intro p' hp' hid
+    rcases hmk p' hp' hid with ⟨p, hp, hpid, h | h⟩ | ⟨_, h | h⟩
+    · exact Or.inl ⟨p, hp, hpid, (nk_parts h).2.2⟩
+    · left
+      refine ⟨p, hp, hpid, ?_⟩
+      unfold nk at h
+      simp only [Prod.mk.injEq] at h
+      exact h.2.2
+    · right
+      unfold nk at h
+      simp only [Prod.mk.injEq] at h
+      exact h.2.2
+    · right
+      unfold nk at h
+      simp only [Prod.mk.injEq] at h
+      exact h.2.2
+  refine ⟨by rw [hlast]; exact hb.lastB, ?_, ?_⟩
+  · intro v lb rb hacc
+    obtain ⟨hiss, id0, haddr0, hJ, huniq⟩ := hb.accB v lb rb hacc
+    have hlv : b.lastNomination = some v := by rw [hb.lastB, hacc]; rfl
+    refine ⟨hiss, id0, hq.addrs _ _ haddr0, ?_, ?_⟩
+    · rcases hJ with hs | ⟨q0, hq0, hq0id, hq0nk⟩
+      · left
+        rcases hsel with h | ⟨_, h | h⟩
+        · exact h.trans hs
+        · rw [hs] at h; cases h
+        · rw [hlv] at h; cases h
+      · right
+        by_cases hid : id = id0
+        · subst hid
+          obtain ⟨q0', hq0', hid'⟩ := hq.fwd q0 hq0
+          refine ⟨q0', hq0', hid'.trans hq0id, ?_⟩
+          rcases hmk q0' hq0' (hid'.trans hq0id) with ⟨p, hp, hpid, h⟩ | ⟨hlt, _⟩
+          · have hpq : p = q0 := ids_unique hi hp hq0 (hpid.trans hq0id.symm)
+            subst hpq
+            rcases h with h | h
+            · exact h.trans hq0nk
+            · rw [h, hq0nk]
+          · have := (AgentC06.Inv.read_ids hi).2 q0 hq0
+            omega
+        · obtain ⟨q0', hq0', hid', hnk'⟩ := hq.keep hi hq0 (by rw [hq0id]; simpa using fun h => hid h.symm)
+          exact ⟨q0', hq0', hid'.trans hq0id, hnk'.trans hq0nk⟩
+    · intro p' hp' hv
+      by_cases hid : p'.id = id
+      · rcases hdn p' hp' hid with ⟨p, hp, hpid, h⟩ | h
+        · rw [h] at hv
+          rw [hid, ← hpid]
+          exact huniq p hp hv
+        · rw [h] at hv; cases hv
+      · obtain ⟨p1, hp1, hp1id, hp1v⟩ := hq.carrier hp' (by simpa using hid) hv
+        rw [← hp1id]
+        exact huniq p1 hp1 hp1v
+  · intro p' hp'
+    by_cases hid : p'.id = id
+    · rcases hdn p' hp' hid with ⟨p, hp, _, h⟩ | h
+      · exact (hb.defB p hp).of_marks (Or.inl h) hmono
+      · exact MarkOK.fresh h
     · exact hq.marks hb.defB hmono hp' (by simpa using hid)
 
 /-- nothing nomination-relevant happens at B -/
